@@ -46,9 +46,9 @@ package leader
 //@ field kvElection.wg                 sync
 //@ field kvElection.isLeader           atomic write_under(mu) props C18,C02 onstore C02.claim_only_in_becomeLeader: v ==> caller.inBecomeLeader
 //@ field kvElection.state              atomic write_under(mu) type string props C18 inv C18.state_domain: v == "INIT" || v == "CANDIDATE" || v == "LEADER" || v == "FOLLOWER" || v == "DEMOTED" || v == "STOPPED"
-//@ field kvElection.token              atomic write_under(mu) type string props C05,C01 inv C05.token_is_published: OwnTok(v) || (v == "" && !this.revSet)
+//@ field kvElection.token              atomic write_under(mu) type string props C05,C01,C02 inv C05.token_is_published: OwnTok(v) || (v == "" && !this.revSet)
 //@ field kvElection.leaderID           atomic type string props C18 onstore C18.leader_consistent_id: v == this.cfg.InstanceID || (held(this.mu) == 2 && !this.isLeader)
-//@ field kvElection.revision           atomic props C01,C05,C07,C18,C13 inv C01.revision_is_own_write: Own(v) || (v == 0 && !this.revSet) onstore C05.revision_matches_token: held(this.mu) == 2 ==> PubTok(v) == this.token
+//@ field kvElection.revision           atomic props C01,C05,C07,C18,C13,C02 inv C01.revision_is_own_write: Own(v) || (v == 0 && !this.revSet) onstore C05.revision_matches_token: held(this.mu) == 2 ==> PubTok(v) == this.token
 //@ field kvElection.observedRevision   atomic
 //@ field kvElection.lastHeartbeat      atomic type time.Time
 //@ field kvElection.lastTransition     atomic type time.Time
@@ -119,11 +119,11 @@ package leader
 //@ lockinv kvElection.mu C18+C02+C01.claim_iff_state:        isLeader == (state == "LEADER")
 //@ lockinv kvElection.mu C20+C09.no_run_under_a_waiting_stop: stopsWaiting > 0 ==> stopped
 //@ lockinv kvElection.mu C20+C09.waiting_stops_counted: stopsWaiting >= caller.stopsAnnouncedHere && caller.stopsAnnouncedHere >= 0
-//@ lockinv kvElection.mu C02.claim_implies_running:  isLeader ==> (ctx != nil && !stopped)
+//@ lockinv kvElection.mu C02+C09.claim_implies_running:  isLeader ==> (ctx != nil && !stopped)
 //@ lockinv kvElection.mu C18+C02+C09.stopped_implies_state:  stopped ==> state == "STOPPED"
 //@ lockinv kvElection.mu C09+C19.cancel_set_with_ctx:    ctx != nil && !stopped ==> cancel != nil
 //@ lockinv kvElection.mu C19.term_cancel_set:            isLeader ==> termCancel != nil
-//@ lockinv kvElection.mu C01.leader_has_written:         isLeader ==> revSet
+//@ lockinv kvElection.mu C01+C02.leader_has_written:         isLeader ==> revSet
 
 // Hooks that apply in every function: whoever stores the claim refreshes the
 // gauge before releasing the mutex; whoever reports a transition reports the
@@ -164,12 +164,12 @@ package leader
 
 //@ iface KeyValue.Create(key, value, opts)
 //@   requires C01.key_is_group: key == e.key
-//@   requires C01+C05.create_payload: IDOf(value) == e.cfg.InstanceID && PrioOf(value) == e.cfg.Priority && FreshTok(TokenOf(value)) && ParseOK(value)
+//@   requires C01+C05+C02.create_payload: IDOf(value) == e.cfg.InstanceID && PrioOf(value) == e.cfg.Priority && FreshTok(TokenOf(value)) && ParseOK(value)
 //@   assumes result1 == nil ==> Own(result0) && result0 > 0 && PubTok(result0) == TokenOf(value) && PubID(result0) == IDOf(value) && OwnTok(TokenOf(value))
 
 //@ iface KeyValue.Update(key, value, rev, opts)
 //@   requires C01.key_is_group: key == e.key
-//@   requires C01+C10+C05+C07+C13.update_is_refresh_or_takeover: Refresh(e, value, rev) || Takeover(e, value, rev)
+//@   requires C01+C10+C05+C07+C13+C02.update_is_refresh_or_takeover: Refresh(e, value, rev) || Takeover(e, value, rev)
 //@   assumes result1 == nil ==> Own(result0) && result0 > rev && PubTok(result0) == TokenOf(value) && PubID(result0) == IDOf(value) && OwnTok(TokenOf(value))
 
 //@ iface KeyValue.Get(key)
@@ -459,7 +459,7 @@ package leader
 //@   ghost mayCancelElection Bool = true
 //@   on store kvElection.ctx set e.stopped = false
 //@   ensures C19+C09.refused_start_has_no_effect: result == ErrAlreadyStarted ==> calls(cancel) == 0 && scalls(attemptAcquire) == 0
-//@   ensures C09.start_spawns_one_round: result == nil ==> scalls(attemptAcquire) == 1
+//@   ensures C09+C06.start_spawns_one_round: result == nil ==> scalls(attemptAcquire) == 1
 //@   on call ConnectionMonitor.OnDisconnect as c assert C11.wires_disconnect_handler: isfunc(c.arg0, "disconnectHandler.handleDisconnect")
 //@   on call ConnectionMonitor.OnReconnect as c assert C11.wires_reconnect_handler: isfunc(c.arg0, "kvElection.handleReconnect")
 //@   ensures C11.monitor_wired: result == nil && e.connectionMonitor != nil ==> calls(ConnectionMonitor.Start) == 1 && calls(ConnectionMonitor.OnDisconnect) == 1 && calls(ConnectionMonitor.OnReconnect) == 1
@@ -475,7 +475,7 @@ package leader
 //@   ghost attempts Int = 0
 //@   ghost waitedSince Bool = false
 //@   ghost lastBackoff Int = 0
-//@   on call time.After as a when !jitterArmed assert C17.jitter_range: 10000000 <= a.d && a.d <= 100000000
+//@   on call time.After as a when !jitterArmed assert C17+C06.jitter_range: 10000000 <= a.d && a.d <= 100000000
 //@   on call time.After as a when jitterArmed assert C17.round_backoff_value: a.d == lastBackoff
 //@   on call time.After set jitterArmed = true
 //@   on recv time.After set jitterWaited = true
@@ -524,10 +524,10 @@ package leader
 //@ func (e *kvElection) attemptPriorityTakeover(payloadBytes)
 //@   tags C01 C10 C13 C05
 //@   requires C10.gate: e.cfg.AllowPriorityTakeover
-//@   requires C01.takeover_payload: IDOf(payloadBytes) == e.cfg.InstanceID && PrioOf(payloadBytes) == e.cfg.Priority && FreshTok(TokenOf(payloadBytes)) && ParseOK(payloadBytes)
+//@   requires C01+C05+C10.takeover_payload: IDOf(payloadBytes) == e.cfg.InstanceID && PrioOf(payloadBytes) == e.cfg.Priority && FreshTok(TokenOf(payloadBytes)) && ParseOK(payloadBytes)
 //@   ghost tkEntry Int = 0
 //@   on ret KeyValue.Get as g when g.result1 == nil set tkEntry = g.result0
-//@   on call KeyValue.Update as c assert C10.update_carries_own_payload: c.value == payloadBytes
+//@   on call KeyValue.Update as c assert C10+C05.update_carries_own_payload: c.value == payloadBytes
 //@   ensures C10+C06.nil_result_means_takeover: result == nil ==> calls(becomeLeader) == 1
 //@   ensures C10.refuses_only_equal_or_higher: tkEntry != 0 && ParseOK(EntryVal(tkEntry)) && e.cfg.Priority > PrioOf(EntryVal(tkEntry)) ==> calls(KeyValue.Update) == 1
 
@@ -541,14 +541,14 @@ package leader
 //@   on lock kvElection.mu set wasLeaderAtLock = e.isLeader
 //@   on lock kvElection.mu set promoteSet = e.onPromote != nil
 //@   on store kvElection.isLeader as s assert C08.promote_from_non_leader: s.value ==> !wasLeaderAtLock
-//@   on store kvElection.token as s assert C05.term_token_is_published_token: s.value == token
+//@   on store kvElection.token as s assert C05+C02.term_token_is_published_token: s.value == token
 //@   on store kvElection.token set tokStored = true
 //@   on store kvElection.revision as s assert C01.token_before_revision: tokStored && s.value == rev
 //@   on store kvElection.revision set e.revSet = true
 //@   ghost revStoredHere Bool = false
 //@   on store kvElection.revision set revStoredHere = true
 //@   on store kvElection.isLeader as s when s.value assert C07+C05+C02+C10.claim_published_last: tokStored && revStoredHere
-//@   on call onPromote as c assert C05.promote_gets_published_token: c.arg1 == token
+//@   on call onPromote as c assert C05+C08.promote_gets_published_token: c.arg1 == token
 //@   on load kvElection.ctx assert C19+C09.election_ctx_read_under_lock: held(e.mu) >= 1
 //@   on call onPromote as c assert C19.derived_from_election_ctx: origin(c.arg0, "ctx:derived") && origin(ctxof(c.arg0), "ctx:derived") && origin(ctxof(ctxof(c.arg0)), "field:kvElection.ctx")
 //@   on call ctxcancel assert C19.not_cancelled_early: calls(onPromote) == 1
@@ -567,7 +567,7 @@ package leader
 //@   ensures C08.promote_once: scalls(onPromote) == ((claimed && promoteSet) ? 1 : 0)
 //@   ensures C08.promotion_goroutine_calls_back: scalls(onPromote) == ((claimed && promoteSet) ? 1 : 0)
 //@   ensures C09.no_promote_after_stop: stateL == "STOPPED" || ctxNilL ==> !claimed && scalls(heartbeatLoop) == 0 && scalls(validationLoop) == 0 && scalls(onPromote) == 0
-//@   ensures C02+C06.claims_when_running: stateL != "STOPPED" && !ctxNilL && !wasLeaderAtLock ==> claimed && scalls(heartbeatLoop) == 1 && scalls(validationLoop) == 1
+//@   ensures C02+C06+C03+C07.claims_when_running: stateL != "STOPPED" && !ctxNilL && !wasLeaderAtLock ==> claimed && scalls(heartbeatLoop) == 1 && scalls(validationLoop) == 1
 //@   ensures C03+C05+C07+C08.no_second_term_on_top_of_a_term: wasLeaderAtLock ==> !claimed && scalls(heartbeatLoop) == 0 && scalls(validationLoop) == 0 && scalls(onPromote) == 0
 
 // becomeFollower() and settleAsFollower() are thin unexported wrappers: always inlined into
@@ -599,7 +599,7 @@ package leader
 //@   ghost spawned wrCleared Bool = false
 //@   on store kvElection.watcherRunning as s when inspawn() set wrCleared = !s.value
 //@   ensures C06+C18.watcher_flag_cleared_on_exit: scalls(watchLoop) == 1 ==> wrCleared
-//@   on unlock kvElection.mu assert C03.claim_cleared_at_unlock: !unlessLeader ==> !e.isLeader
+//@   on unlock kvElection.mu assert C03+C02.claim_cleared_at_unlock: !unlessLeader ==> !e.isLeader
 //@   on store kvElection.isLeader assert C07.settling_never_clears_a_claim: unlessLeader ==> !cleared
 //@   ensures C07.settling_reports_nothing_cleared: unlessLeader ==> !result
 //@   ensures C08+C03.reports_cleared: !unlessLeader ==> result == cleared
@@ -752,11 +752,11 @@ package leader
 //@   on recv local as r set ent = r.value.entry
 //@   on recv local as r set entErr = r.value.err
 //@   on recv local set got = true
-//@   ensures C04.sound: result0 ==> got && entErr == nil && ent != nil && FromGet(ent) && ntok == 1 && tok != "" &&
+//@   ensures C04+C11+C13.sound: result0 ==> got && entErr == nil && ent != nil && FromGet(ent) && ntok == 1 && tok != "" &&
 //@        ParseMapOK(EntryVal(ent)) &&
 //@        maphas(ParseMap(EntryVal(ent)), "token") && istype(mapget(ParseMap(EntryVal(ent)), "token"), string) && pay(mapget(ParseMap(EntryVal(ent)), "token")) == tok &&
 //@        maphas(ParseMap(EntryVal(ent)), "id") && istype(mapget(ParseMap(EntryVal(ent)), "id"), string) && pay(mapget(ParseMap(EntryVal(ent)), "id")) == e.cfg.InstanceID
-//@   ensures C04.fail_safe: result0 ==> result1 == nil
+//@   ensures C04+C11+C13.fail_safe: result0 ==> result1 == nil
 //@   ensures C04.error_means_false: result1 != nil ==> !result0
 //@   ensures C04.cancel_means_false: cAtEntry ==> !result0
 
@@ -772,7 +772,7 @@ package leader
 //@   on call validateToken as c assert C04.validation_bound_to_the_callers_context: c.ctx == ctx || (origin(c.ctx, "ctx:derived") && ctxof(c.ctx) == ctx)
 //@   ensures C04.not_leader_false: !sawLeader ==> !result0 && result1 == ErrNotLeader
 //@   ensures C04.true_needs_validation: result0 ==> sawLeader && calls(validateToken) == 1 && vt0 && vt1 == nil && result1 == nil
-//@   ensures C04.fail_safe: result1 != nil ==> !result0
+//@   ensures C04+C11+C13.fail_safe: result1 != nil ==> !result0
 
 //@ func (e *kvElection) ValidateTokenOrDemote(ctx)
 //@   tags C04 C07
@@ -788,8 +788,8 @@ package leader
 //@   on load kvElection.isLeader as l when !l.value set sawNotLeader = true
 //@   on call handleValidationFailure set validation_failed = !(v0 && v1 == nil)
 //@   ensures C04.same_verdict: result == (v0 && v1 == nil) && calls(ValidateToken) == 1
-//@   ensures C04.demote_on_false: !result ==> calls(handleValidationFailure) == 1 || sawNotLeader
-//@   ensures C04.no_demote_on_true: result ==> calls(handleValidationFailure) == 0
+//@   ensures C04+C13.demote_on_false: !result ==> calls(handleValidationFailure) == 1 || sawNotLeader
+//@   ensures C04+C07.no_demote_on_true: result ==> calls(handleValidationFailure) == 0
 
 // ===========================================================================
 // heartbeat.go  (C03, C12, C05, C01)
@@ -838,7 +838,7 @@ package leader
 //@   on load kvElection.revision set revLoaded = true
 //@   on load kvElection.token as l assert C01.revision_before_token: revLoaded
 //@   on load kvElection.token as l set lastTok = l.value
-//@   on call json.Marshal as m assert C05.heartbeat_payload: m.v.ID == e.cfg.InstanceID && m.v.Token == lastTok && m.v.Priority == e.cfg.Priority
+//@   on call json.Marshal as m assert C05+C07+C02.heartbeat_payload: m.v.ID == e.cfg.InstanceID && m.v.Token == lastTok && m.v.Priority == e.cfg.Priority
 //@   on call time.After as a assert C03+C07.timeout_value: a.d == max(e.cfg.HeartbeatInterval / 2, 1000000000)
 //@   on call KeyValue.Update assert C03.attempt_time_boxed: inspawn()
 //@   on call KeyValue.Get assert C03.attempt_time_boxed: inspawn()
@@ -879,8 +879,8 @@ package leader
 //@   on call becomeFollower set demote_cause = err != nil
 //@   on ret becomeFollower as r set cleared = r.result
 //@   on load kvElection.onDemote as l set demoteSet = l.value != nil
-//@   ensures C03.demotes: calls(becomeFollower) == 1
-//@   ensures C03.runs_demote_callback: cleared && demoteSet ==> calls(onDemote) == 1
+//@   ensures C03+C02+C13.demotes: calls(becomeFollower) == 1
+//@   ensures C03+C08.runs_demote_callback: cleared && demoteSet ==> calls(onDemote) == 1
 //@   ensures C08+C03.demote_iff_claim_cleared: calls(onDemote) == ((cleared && demoteSet) ? 1 : 0)
 
 //@ func (e *kvElection) handleRunCancelled(ctx)
@@ -911,7 +911,7 @@ package leader
 //@   on ret becomeFollower as r set cleared = r.result
 //@   on load kvElection.onDemote as l set demoteSet = l.value != nil
 //@   ensures C12.demotes: calls(becomeFollower) == 1
-//@   ensures C12.runs_demote_callback: cleared && demoteSet ==> calls(onDemote) == 1
+//@   ensures C12+C08.runs_demote_callback: cleared && demoteSet ==> calls(onDemote) == 1
 //@   ensures C08+C12.demote_iff_claim_cleared: calls(onDemote) == ((cleared && demoteSet) ? 1 : 0)
 
 // ===========================================================================
@@ -938,7 +938,7 @@ package leader
 //@   on call handleValidationFailure set hvfCalled = true
 //@   loop 0 invariant C04.validation_fail_count: 0 <= $v && $v <= 1 && $v == vfail
 //@   loop 0 invariant C04.no_pending_demotion: !hvfCalled && (ran ==> (lastErr != nil || lastValid))
-//@   on backedge 0 assert C04.invalid_demotes_now: ran ==> (lastErr != nil || lastValid)
+//@   on backedge 0 assert C04+C13.invalid_demotes_now: ran ==> (lastErr != nil || lastValid)
 //@   on return assert C04.loop_demotes: ran && ((lastErr == nil && !lastValid) || vfail >= 2) ==> hvfCalled
 
 //@ func (e *kvElection) handleValidationFailure(err)
@@ -951,7 +951,7 @@ package leader
 //@   on ret becomeFollower as r set cleared = r.result
 //@   on load kvElection.onDemote as l set demoteSet = l.value != nil
 //@   ensures C04.demotes: calls(becomeFollower) == 1
-//@   ensures C04.runs_demote_callback: cleared && demoteSet ==> calls(onDemote) == 1
+//@   ensures C04+C08.runs_demote_callback: cleared && demoteSet ==> calls(onDemote) == 1
 //@   ensures C08+C04.demote_iff_claim_cleared: calls(onDemote) == ((cleared && demoteSet) ? 1 : 0)
 
 // ===========================================================================
